@@ -21,6 +21,11 @@
 
 size_t libwifi_add_action_detail(struct libwifi_action_detail *detail, const unsigned char *data,
                                  size_t data_len) {
+    // Nothing to add: an empty allocation would be lost by the next call
+    if (data_len == 0) {
+        return detail->detail_length;
+    }
+
     // Keep the existing detail when the allocation fails
     char *buf = NULL;
     if (detail->detail_length != 0) {
